@@ -281,6 +281,7 @@ def run_case(d, wants, mg):
   seq = list(wants)
   if d.has_reset: seq = [(1, 0, 0)] + seq
   else: seq = [(0, we, wd) for (_, we, wd) in seq] + [(0, 0, 1)] * (d.n + 2)
+  d.partial = hist
   for rst, we, wd in seq:
     hist.append(d.cycle(rst, we, mg.next(), wd))
   return hist
@@ -316,7 +317,7 @@ def run(ctx):
   rng = ctx.rng
   drivers, notes = make_drivers(ctx.tier)
   for x in notes: ctx.note(x)
-  depth = 3 if quick else 5
+  depth = 3 if quick else 4
   nrand = 2 if quick else 12
   cases, meta = [], []
   mg = MsgGen(rng)
@@ -329,11 +330,18 @@ def run(ctx):
     except Exception as e:
       unsupported.append((d, e)); continue
     plans = [('exh', w) for w in exhaustive_wants(d.n, depth)]
-    if not quick and d.n <= 2:
-      plans += [('exh-deep', [(0, c >> 1, c & 1) for c in seq]) for seq in itertools.product(range(4), repeat=2 * d.n + 3)]
+    if not quick and d.n <= 2:    # every offer sequence from the empty queue, depth 5 (n=1) / 6 (n=2)
+      plans += [('exh-deep', [(0, c >> 1, c & 1) for c in seq]) for seq in itertools.product(range(4), repeat=d.n + 4)]
     plans += [('rnd', random_wants(rng, 200, d.has_reset)) for _ in range(nrand)]
     for tag, wants in plans:
-      hist = run_case(d, wants, mg)
+      try:
+        hist = run_case(d, wants, mg)
+      except Exception as e:
+        # the simulated component (or the legality assertion of the driver) blew up in the middle of a history
+        part = getattr(d, 'partial', [])
+        ctx.violation(f'C17:{d.label}:exception', f'{d.label}: simulation raised {type(e).__name__}: {str(e)[:200]} after {len(part)} cycle(s) of a legal offer history',
+                      {'queue': d.label, 'plan': tag, 'error': traceback.format_exc()[-1500:], 'cycles_before_the_exception': part[-40:]})
+        break
       cycles += len(hist)
       cases.append(case_term(d, hist)); meta.append((d, tag, hist))
       key = (d.label, tuple((r['rst'], r['we'], r['wd']) for r in hist))
@@ -350,7 +358,7 @@ def run(ctx):
     d, tag, hist = meta[i]
     ctx.sample({'queue': d.label, 'plan': tag, 'cycles': len(hist), 'first_cycles': hist[:4], 'coq': cases[i][:300]})
 
-  bad = ctx.coq_bad_indices('hist', IMPORTS, '', CASE_T, cases, 'case_ok c', shard=max(50, len(cases) // 16 + 1))
+  bad = ctx.coq_bad_indices('hist', IMPORTS, '', CASE_T, cases, 'case_ok c', shard=1500)
   ctx.extra['disagreeing_histories'] = len(bad)
   ctx.extra['coq_replay_s'] = round(time.time() - t_coq, 1)
   seen = set()
@@ -396,6 +404,6 @@ def main(ctx):
     ctx.note('correspondence crashed: ' + traceback.format_exc()[-1500:])
     ctx.violation('C17:harness-crash', f'correspondence could not run: {e!r}', {'traceback': traceback.format_exc()}, found_input=False)
   return ctx.finish(rule='case = one queue class x capacity 1..5 x one offer history starting from the empty queue: (a) exhaustive: prefill L=0..n then every '
-                         '(want_enq,want_deq) sequence of depth 3 (quick) / 5 (thorough; plus depth 2n+3 from empty for n<=2), (b) random 200-cycle histories with '
+                         '(want_enq,want_deq) sequence of depth 3 (quick) / 4 (thorough; plus every sequence of depth n+4 from empty for n<=2), (b) random 200-cycle histories with '
                          'bursty offer rates and 2% resets; distinct = distinct (class, capacity, offer sequence); non-trivial = at least one message accepted '
                          'and one delivered; every cycle compares rdy/val/fire/msg/count and the internal registers with the Coq spec and concrete model (coqc vm_compute)')
